@@ -121,6 +121,10 @@ pub fn c10(tier: &str, seed: u64) -> Vec<Case> {
         }
         for rep_no in 0..reps {
             g.share = 4;
+            // two repetitions per type with all names built from one label and an encoder that points whenever it can (see
+            // (3) below): every embedded name is met as a pointer at least there, whatever the other draws share
+            let forced = rep_no == 1 || rep_no == 4;
+            let saved_pool = if forced { g.share = 8; Some(std::mem::replace(&mut g.pool, vec![b"same".to_vec()])) } else { None };
             let rd = g.rdata(kind);
             let rd_text = text::rdata(&rd);
             let tag = format!("type:{}", KIND_NAMES[kind]);
@@ -155,7 +159,8 @@ pub fn c10(tier: &str, seed: u64) -> Vec<Case> {
             // accept compression pointers in any embedded name)
             let mut rng2 = Rng::new(seed ^ (kind as u64) << 8);
             let two = format!("P 7 32768 0 0 o0 0 2 {} {} 0 0", text::rr(&ResourceRecord::new(g.name(), CLASS::IN, 1, RData::NS(NS(g.name())))), rr_text);
-            let (enc, _) = refenc::encode_packet(&two, Compress::Random(&mut rng2, 6), false, None);
+            if let Some(pool) = saved_pool { g.pool = pool; g.share = 4; }
+            let (enc, _) = refenc::encode_packet(&two, Compress::Random(&mut rng2, if forced { 8 } else { 6 }), false, None);
             let out = parse_out(&enc);
             let mut c = Case::new(format!("parse {}", text::hex(&enc)), out.clone()).tag(&tag).tag("decode-compressed");
             if out != format!("ok {}", two) { c = c.fail("layout-read-compressed", format!("{}: the RFC encoding with compressed names does not give the field values back", KIND_NAMES[kind])); }
